@@ -234,6 +234,38 @@ class Loader:
                 c.inner[st.name] = st
         return c
 
+    def mutable_class_attrs(self):
+        """(class name, attribute) pairs that are assigned through the class somewhere in the repository"""
+        if getattr(self, "_mut", None) is not None:
+            return self._mut
+        out = set()
+        root = os.path.join(self.repo, "msmart")
+        for dp, dn, fn in os.walk(root):
+            for f in fn:
+                if not f.endswith(".py") or f.startswith("test_") or os.path.basename(dp) == "tests":
+                    continue
+                try:
+                    tree = ast.parse(open(os.path.join(dp, f)).read())
+                except SyntaxError:
+                    continue
+                for cls in [n for n in ast.walk(tree) if isinstance(n, ast.ClassDef)]:
+                    for n in ast.walk(cls):
+                        tgts = []
+                        if isinstance(n, ast.Assign):
+                            tgts = n.targets
+                        elif isinstance(n, (ast.AugAssign, ast.AnnAssign)):
+                            tgts = [n.target]
+                        for t in tgts:
+                            if isinstance(t, ast.Attribute) and isinstance(t.value, ast.Name):
+                                if t.value.id == "cls" or t.value.id == cls.name:
+                                    out.add((cls.name, t.attr))
+                                elif t.value.id[:1].isupper():
+                                    out.add((t.value.id, t.attr))
+                            elif isinstance(t, ast.Attribute) and isinstance(t.value, ast.Call) and isinstance(t.value.func, ast.Name) and t.value.func.id == "type":
+                                out.add(("*", t.attr))
+        self._mut = out
+        return out
+
     def find_function(self, qualname):
         """qualname like msmart.lan._Packet.decode -> (ModuleInfo, [class nodes...], funcnode)"""
         parts = qualname.split(".")
